@@ -314,7 +314,7 @@ def _np_table():
 
 NP_TABLE = _np_table()
 CMP = {'__lt__': operator.lt, '__le__': operator.le, '__gt__': operator.gt, '__ge__': operator.ge, '__eq__': operator.eq}
-DATA_MOVEMENT = {'diag', 'triu', 'tril', 'reshape', 'transpose', 'tile', 'real', 'imag', '__getitem__', '__neg__', 'neg', 'negative', 'symvec', 'vecsym'}
+DATA_MOVEMENT = {'diag', 'triu', 'tril', 'reshape', 'transpose', 'tile', 'real', 'imag', '__getitem__', '__neg__', 'neg', 'negative', 'symvec', 'vecsym', 'minimum', 'maximum'}
 PARTIAL = {'eigh': 'eigh', 'eig': 'eig', 'svd': 'svd'}      # factor matrices fixed only up to convention: compare the invariant part
 
 
